@@ -1,3 +1,4 @@
+import Pocket.Lemmas.FromSourceHex
 import Pocket.Lemmas.ParseWF
 import Pocket.Lemmas.Digits
 import Pocket.Lemmas.EventOrder
@@ -235,5 +236,13 @@ example : ∃ ms : List MemSpec, (∀ x ∈ ms, x.WsOk) ∧ (ms.map (·.m)).Nodu
       (refine ⟨?_, ?_, ?_, ?_⟩ <;> intro b hb <;> simp at hb <;> (try rcases hb with rfl | rfl) <;> (try subst hb) <;> decide)
   · decide
   · intro m; cases m <;> decide
+
+/-! ### tie to the source text: what /repo says now (translated on every run by `lib/srcfacts.py`) is what the model says -/
+
+/-- the hex decoding of id / pubkey / sig: `read_hex!`'s lookup in the source's `HEX_INVERSE` table (index by byte; 255 and
+bytes outside the table are not hex characters) is the model's `hexInv`, for every byte value -/
+theorem hex_table_from_source (b : Nat) (hb : b < 256) :
+    hexInv b = (match Src.hexInverse[b]? with | some h => if h = 255 then none else some h | none => none) :=
+  Pocket.hex_table_from_source b hb
 
 end Pocket.C01
